@@ -620,6 +620,25 @@ def dense_cases(n, seed=0):
     return cases
 
 
+def large_cases(seed=0):
+    """continua with hundreds to a few thousand candidate unitary alignments (3 x 14 and 2 x 40 overlapping units, 4 x 6 crowded ones): what
+    only happens above some number of candidates - a threshold, a reordering, a batch boundary - shows here and not on the solver's small shapes"""
+    import random
+    rnd = random.Random(4321 + seed)
+    cases = []
+    for shape, step, dur in (((14, 14, 14), 1.1, (1.0, 3.5)), ((40, 40), 0.6, (0.8, 3.0)), ((6, 6, 6, 6), 0.9, (1.0, 4.0))):
+        units = []
+        for a, nu in enumerate(shape):
+            t = rnd.uniform(0, 1)
+            for j in range(nu):
+                d = rnd.uniform(*dur)
+                s = max(0.0, t + rnd.uniform(-0.8, 0.4))
+                units.append([ANN[a], repr(s), repr(s + d), rnd.choice(["x", "y", "z"])])
+                t = s + step
+        cases.append(dict(shape=list(shape), units=units, annotators=[ANN[a] for a in range(len(shape))], alpha=1, beta=1, de=1, dissim="combined"))
+    return cases
+
+
 def real_medium_check(case, mode="best", backends=("cbc",)):
     """best / soft alignment of a medium continuum on the real build against an independent MILP over all tuples"""
     import itertools
